@@ -292,7 +292,7 @@ Definition bet_wager (s : chain) (signer : Z) (tk : ticket) (betuid amount selmk
                 | None => None
                 | Some bank' =>
                     let b := {| b_id := betid; b_uid := betuid; b_creator := signer; b_mkt := selmkt; b_odds := selodds;
-                                b_oddsval := oddsval; b_amount := amt; b_fee := fee; b_status := BS_PLACED;
+                                b_oddsval := oddsval; b_amount := zsum (map f_stake parts); b_fee := fee; b_status := BS_PLACED;
                                 b_result := BR_PENDING; b_mult := mult; b_created := c_now s; b_sheight := 0;
                                 b_parts := parts |} in
                     let x' := mstate_upd x mk bk (ms_bets x ++ [b]) (ms_pending x ++ [betid]) (ms_deps x) (ms_wds x) in
